@@ -680,3 +680,19 @@ Proof.
   destruct (nth_error (chans s) (Z.to_nat ch)); [|cbn; auto].
   destruct (publish_chan c n) as [c' d]. destruct H as (k' & _ & HI' & _). cbn. auto.
 Qed.
+
+(* ---------- fault stream ---------- *)
+
+Lemma fault_stop_closes_channels : forall s, fault_stop_ok (fault_obs s) = true.
+Proof.
+  intro s. unfold fault_stop_ok, fault_obs, stop_under_fault; cbn [fo_writers fo_open fo_stored set_chans chans].
+  rewrite writers_remove_all. cbn [andb Z.eqb].
+  assert (H : existsb stores_any (map remove_all (chans s)) = false).
+  { induction (chans s) as [|c t IH]; cbn [map existsb]; auto. rewrite IH.
+    unfold stores_any, publish_chan, remove_all, any_writer; cbn. now destruct (cpaused c). }
+  now rewrite H.
+Qed.
+
+Lemma fault_stop_reachable :
+  forall (c : config) (ops : list op), fault_stop_ok (fault_obs (fst (run (init c) ops))) = true.
+Proof. intros. apply fault_stop_closes_channels. Qed.
